@@ -366,6 +366,12 @@ RULES = {
     "R27": [(".lock()", ".vlock_late()")],
     # R29: `s == suffix` with `s: Cow<str>` (PartialEq<&str> for Cow<str> cannot be given a specification) -> shim `vcow_eq(&s, suffix)`
     "R29": [("s==suffix", "vcow_eq(&s, suffix)")],
+    # R30: `continue` in the copied body of one loop iteration of get_highest_index (a `block` span: the wrapper function is one
+    # iteration) -> `return o_highest_idx` (the iteration ends, the running value is unchanged)
+    "R30": [("continue", "return o_highest_idx")],
+    # R31: `s.rsplit(p).next()` -> `s.vrsplit_first(p)`, `s.split(c).next()` -> `s.vsplit_first(c)` (Split / RSplit iterators have no
+    # specification), `&name[1..]` -> `name.vslice_from(1)`, `.parse()` -> `.vparse_u32()` (get_highest_index parses a u32)
+    "R31": [(".rsplit($C).next()", ".vrsplit_first($C)"), (".split($C).next()", ".vsplit_first($C)"), ("&name[1..]", "name.vslice_from(1)"), (".parse()", ".vparse_u32()")],
     # R28 (computed): byte-offset string operations -> shims over the UTF-8 model of the unit (`byte_len` = sum of the characters' widths):
     # `s.find(c)` -> `s.vfind(c)`, `&s[..end]` -> `s.vslice_to(end)` (precondition: `end` is a character boundary), `&cow[..]` -> `vfull(&cow)`
     "R28": [],
